@@ -92,6 +92,13 @@ type FuncSpec struct {
 	LoopStyle    string               // "forFirst": early-exit range loops as Go.forFirst (β := result type); default Go.forRange
 	TailCalls    []string             // RetErr: `return f(..)` with f in this list is a tail call (not an error constructor)
 	StructLits   map[string]StructLit // Go composite literal type ("pkg.T{}") -> Lean structure instance with the kept fields
+	// (translate_ext.go) InitResults: named results are zero-initialised before the body (zero values from ZeroOf / zeroValues) and a
+	// naked `return` yields them; ZeroOf: Go type text -> Lean zero value of `var x T` / named results; HardErr: callee whose T-typed
+	// errors travel in its ok-value (see WrapBoth) -> Lean function turning its result into the strict (T, error) reading that a plain
+	// `if err != nil` check denotes
+	InitResults bool
+	ZeroOf      map[string]string
+	HardErr     map[string]string
 }
 
 // StructLit: `&pkg.T{K: V, ...}` becomes `({ K := V, ... } : Lean)`, restricted to the fields in Keep.
@@ -135,6 +142,9 @@ type tr struct {
 	loopDepth   int             // inside the body of a generically translated range loop (returns become `some …`)
 	loop        int             // > 0: inside the body of a Go.forFirst loop (returns are wrapped in `some`)
 	rt          string          // Lean result type of the function being translated
+	breakK      []cont          // (translate_ext.go) continuations of the enclosing switch statements: where `break` goes
+	funcVals    map[string]bool // (translate_ext.go) local variables holding a method / function value
+	results     []string        // (translate_ext.go) names of the named results (InitResults)
 }
 
 func (t *tr) declareFields(fl *ast.FieldList) {
@@ -750,6 +760,9 @@ func (t *tr) call(c *ast.CallExpr) string {
 		if r, ok := t.spec.Rename[id.Name+"()"]; ok { // function-typed value: rename gives the application head
 			return "(" + r + " " + a + ")"
 		}
+		if t.funcVals[id.Name] { // local variable holding a method value: applied as it is (no clock argument)
+			return "(" + t.ident(id.Name) + " " + a + ")"
+		}
 		if a == "" {
 			return "(" + id.Name + " now)"
 		}
@@ -942,6 +955,9 @@ func (t *tr) ret(r *ast.ReturnStmt) string {
 }
 
 func (t *tr) ret0(r *ast.ReturnStmt) string {
+	if len(r.Results) == 0 && t.spec.InitResults {
+		return t.nakedReturn(r) // named results (translate_ext.go)
+	}
 	if t.spec.Ret == RetVal && len(r.Results) == 0 && t.spec.RetParam != "" {
 		return t.spec.RetParam
 	}
@@ -1200,6 +1216,9 @@ func (t *tr) block(stmts []ast.Stmt, k cont) string {
 				if z, ok := zeroValues[exprString(vs.Type)]; ok && zero == "" {
 					zero = z
 				}
+				if z, ok := t.spec.ZeroOf[exprString(vs.Type)]; ok && zero == "" {
+					zero = z
+				}
 				if zero == "" {
 					continue
 				}
@@ -1379,8 +1398,11 @@ func (t *tr) block(stmts []ast.Stmt, k cont) string {
 					t.errInScope = saved
 					zb := t.zeroBind(ifs.Body, exprString(x.Lhs[0]))
 					t.indent--
-					return "(match " + t.expr(call) + " with\n" + t.pad() + "| " + t.wpat(call, ".error err") + " => " + zb + errBranch + "\n" + t.pad() + "| " + t.wpat(call, ".ok "+t.okPattern(call, v)) + " =>\n" + t.pad() + post + t.takePost() + cont() + ")"
+					return "(match " + t.hardErr(call) + " with\n" + t.pad() + "| " + t.wpat(call, ".error err") + " => " + zb + errBranch + "\n" + t.pad() + "| " + t.wpat(call, ".ok "+t.okPattern(call, v)) + " =>\n" + t.pad() + post + t.takePost() + cont() + ")"
 				}
+			}
+			if out, ok := t.assignExt(x, stmts, k); ok {
+				return out
 			}
 			return t.bad("two-value assignment without error check", x)
 		}
@@ -1474,6 +1496,9 @@ func (t *tr) block(stmts []ast.Stmt, k cont) string {
 				return "let " + b + " := " + t.expr(x.Rhs[0]) + ";\n" + t.pad() + post + rest()
 			}
 			return "let " + t.ident(exprString(x.Lhs[0])) + " := " + t.expr(x.Rhs[0]) + ";\n" + t.pad() + rest()
+		}
+		if out, ok := t.assignExt(x, stmts, k); ok {
+			return out
 		}
 		return t.bad("assignment", x)
 	case *ast.IfStmt:
@@ -1650,6 +1675,9 @@ func (t *tr) block(stmts []ast.Stmt, k cont) string {
 		}
 		return t.bad("range loop", x)
 	}
+	if out, ok := t.stmtExt(s, stmts, k); ok {
+		return out
+	}
 	return t.bad(fmt.Sprintf("statement %T", s), s)
 }
 
@@ -1772,6 +1800,8 @@ func (t *tr) switchStmt(s *ast.SwitchStmt, cont cont) string {
 	if s.Tag != nil {
 		tag = t.expr(s.Tag)
 	}
+	t.breakK = append(t.breakK, cont) // `break` inside a case leaves the switch (translate_ext.go)
+	defer func() { t.breakK = t.breakK[:len(t.breakK)-1] }()
 	var def *ast.CaseClause
 	var out strings.Builder
 	closers := 0
@@ -1834,6 +1864,7 @@ func translateFunc(fset *token.FileSet, fd *ast.FuncDecl, spec *FuncSpec) (strin
 		}
 	}
 	t := &tr{spec: spec, fset: fset, indent: 1, fresh: map[string]bool{}, declared: map[string]bool{}, rt: "(" + rt + ")"}
+	t.funcVals = map[string]bool{}
 	t.declareFields(fd.Recv)
 	t.declareFields(fd.Type.Params)
 	t.declareFields(fd.Type.Results)
@@ -1845,7 +1876,9 @@ func translateFunc(fset *token.FileSet, fd *ast.FuncDecl, spec *FuncSpec) (strin
 	if spec.Ret == RetWrites {
 		k = func() string { return "[]" } // a handler may fall off its end
 	}
+	inits := t.initResults(fd) // "" unless spec.InitResults (translate_ext.go)
 	body := t.block(fd.Body.List, k)
+	body = inits + body
 	pos := fset.Position(fd.Pos())
 	var b strings.Builder
 	fmt.Fprintf(&b, "/-- translated from %s:%d `%s` -/\n", relPath(pos.Filename), pos.Line, spec.Name)
